@@ -1,5 +1,5 @@
 (* C05 — Senders are charged exactly gas used x effective price, in every outcome. *)
-From Evm Require Import TxPipe TxPipeExt TxPipeProofs TxPipeDenom TxPipeDenomProofs.
+From Evm Require Import TxPipe TxPipeExt TxPipeProofs TxPipeDenom TxPipeDenomProofs TxPipeSeqProofs TxPipeCumProofs.
 Open Scope Z_scope.
 
 (* committed execution (success or VM error): sender pays gas used (as in the receipt) x effective price,
@@ -143,3 +143,28 @@ Example C05_example_aborted :
   r_gas_wanted (snd (deliver_panic s t 0)) = 40000 /\ r_gas_used (snd (deliver_panic s t 0)) = 0 /\
   gas_shown (snd (deliver_panic s t 0)) = 40000.
 Proof. vm_compute. repeat split; reflexivity. Qed.
+
+(* ------------------------------------------------------------------ the whole block at once (Proofs/TxPipeCumProofs.v):
+   the LIST of cumulative-gas figures shown by the receipts of a block, in block order, is the list of running sums
+   of the gas shown by every Ethereum transaction that reached execution - receipt gas for committed executions, the
+   whole gas limit for those that failed after admission or were aborted - read at the receipts *)
+Theorem C05_block_cumulative_is_running_sums : forall s l,
+  shown_cum (trace (begin_block s) l) = cum_from 0 (trace (begin_block s) l).
+Proof. exact block_cumulative_is_running_sums. Qed.
+Print Assumptions C05_block_cumulative_is_running_sums.
+
+Theorem C05_x_block_cumulative_is_running_sums : forall s l,
+  cum_gas (d_core s) = 0 -> shown_cum (xtrace s l) = cum_from 0 (xtrace s l).
+Proof. exact x_block_cumulative_is_running_sums. Qed.
+Print Assumptions C05_x_block_cumulative_is_running_sums.
+
+(* non-vacuity: executed (21000), failed after admission (limit 30000, no receipt), executed (25000) *)
+Example C05_example_cumulative_list :
+  let s := mkSt (fun a => if a =? 7 then 10^18 else 0) (fun _ => 0) (fun a => a =? 7) (fun _ => false)
+                (5 * 10^18) 1000 0 0 0 0 0 0 false false in
+  let t n g := mkTx 7 (Some 7) true false 2000 0 0 g n 0 false 21000 in
+  let tr := trace (begin_block s) [Eth (t 0 50000) (mkOut 21000 false 2 [] 0 false);
+                                   Eth (t 1 30000) (mkOut 0 false 0 [] 0 true);
+                                   Eth (t 2 60000) (mkOut 25000 false 1 [] 0 false)] in
+  shown_cum tr = [21000; 76000] /\ cum_from 0 tr = [21000; 76000].
+Proof. vm_compute. split; reflexivity. Qed.
